@@ -167,9 +167,23 @@ def poolsize(ctx):
     grz = cfg_of(rz)
     adj = [c for c in calls_in(rz) if call_name(c) == "self._adjust_process_count"]
     setw = [a for a in assigns_to(rz, "self._max_workers") if dotted(a.value) == "max_workers"]
-    ctx.need(adj, "_resize no longer adjusts the process count")
-    ctx.check(bool(setw) and grz.every_path_to(grz.nodes_of_all(adj), grz.nodes_of_all(setw)), adj[0], "_resize records the new size before (re)spawning workers up to it",
-              "_resize spawns workers before recording the new size: a shrinking executor respawns up to the OLD size and keeps running more than n_jobs workers")
+    if adj:
+        ctx.check(bool(setw) and grz.every_path_to(grz.nodes_of_all(adj), grz.nodes_of_all(setw)), adj[0], "_resize records the new size before (re)spawning workers up to it",
+                  "_resize spawns workers before recording the new size: a shrinking executor respawns up to the OLD size and keeps running more than n_jobs workers")
+    else:
+        ctx.ok(rz, "_resize does not spawn workers itself (the pool grows lazily on submit, never beyond _max_workers)", key=RE + "::_ReusablePoolExecutor._resize::spawning")
+    # every normal way out of _resize has recorded the requested size (or it already was the size): a later start /
+    # _adjust_process_count must never see the previous, larger, size
+    from ..core import cond_facts
+    for ex_ in [r for r in nodes_of_type(rz, ast.Return)] + [rz]:
+        if ex_ is rz:
+            ok_ = bool(setw) and grz.every_path_to([grz.exit], set(grz.nodes_of_all(setw)) | set(grz.nodes_of_all(nodes_of_type(rz, ast.Return))) | set(grz.nodes_of_all(nodes_of_type(rz, ast.Raise))), skip_exc=True)
+            ctx.check(ok_, rz, "falling off the end of _resize happens only after the new size was recorded", "_resize can finish without recording the requested size")
+            continue
+        fc = cond_facts(grz.conditions_at(grz.nodes_of(ex_)))
+        same = ("max_workers == self._max_workers", True) in fc or ("self._max_workers == max_workers", True) in fc
+        ctx.check(same or (bool(setw) and grz.every_path_to(grz.nodes_of(ex_), grz.nodes_of_all(setw), skip_exc=True)), ex_, "this exit of _resize is taken with the size already right or freshly recorded",
+                  "_resize returns without recording the requested size (e.g. for an executor whose workers are not started yet): it later starts with the previous size, which may exceed the resolved n_jobs")
     apc = ctx.repo.func("joblib/externals/loky/process_executor.py", "ProcessPoolExecutor._adjust_process_count")
     lp = [w for w in nodes_of_type(apc, ast.While)]
     ctx.check(bool(lp) and unparse(lp[0].test) == "len(self._processes) < self._max_workers", lp[0] if lp else apc, "workers are spawned while fewer than _max_workers exist (never more)",
